@@ -16,20 +16,24 @@ check('C32',
            'characters (named, decimal, hex, decimal with leading zero, upper-case hex with leading zeros) x 2 layouts, all other slots '
            'on a rotating default (thorough also: a depth-6 x width-6 caterpillar, a complete binary tree of depth 6, a complete 6-ary '
            'tree of depth 2); (C) for shapes with <= 3 nodes every combination of attribute set and slot values over a reduced alphabet '
-           '({v, empty, &lt;, &, <}: quick 3 values for <= 2 nodes and 2 for 3 nodes; thorough 5 and 4). Every document is parsed by XmlElement::Factory(istream&, docpath) with XmlElement::noextensions '
-           'set and compared with the reference: tags, attribute maps (GetAttr, HasAttr, abegin..aend), text (GetVal), children in order '
-           '(begin..end, GetChildCnt, GetParent); then find(path) first/all, find_child and find with an attribute filter are compared '
-           'with an independent path evaluator, from every element, for every path that exists below it and for near misses (last '
-           'component replaced, one more component, trailing or leading delimiter, leading //, blank padding, upper case, first '
-           'component dropped). bytes: every string of length <= 6 (quick) / 8 (thorough) over {< > / a = " space ! - &}; every prefix and '
-           'every single-byte substitution of the seed documents (kitchen sink incl. declaration, comment, CDATA, entity / decimal / hex / '
+           '({v, empty, &lt;, &, <}: quick 3 values for <= 2 nodes and 2 for 3 nodes; thorough 5 and 4). Every document is parsed by '
+           'XmlElement::Factory(istream&, docpath) with XmlElement::noextensions set and compared with the reference: tags, attribute '
+           'maps (GetAttr, HasAttr, abegin..aend), text (GetVal), children in order (begin..end, GetChildCnt, GetParent); then find(path) '
+           'first/all, find_child and find with an attribute filter are compared with an independent path evaluator, from every element, '
+           'for every path that exists below it and for near misses (last component replaced, one more component, trailing or leading '
+           'delimiter, leading //, blank padding, upper case, first component dropped). bytes: every string of length <= 6 (quick) / 7 '
+           '(thorough) over {< > / a = " space ! - &}, thorough also every string of length 8 that begins with <; every prefix and every '
+           'single-byte substitution of the seed documents (kitchen sink incl. declaration, comment, CDATA, entity / decimal / hex / '
            'unknown / out-of-range references and a failing xi:include; nesting at MaxDepth=128 and MaxDepth+1; thorough: a 4 KB document); '
-           'the parser must return a tree (walked and deleted), nullptr, or throw XMLError / std::exception, with ASan and UBSan silent.',
+           'the parser must return a tree (walked and deleted), nullptr, or throw XMLError / std::exception, with ASan and UBSan silent; '
+           'for strings of length <= 4 and every seed prefix the parse is repeated with the dead stack pre-filled with four different '
+           'bytes and the result (tree dump, line count or exception text) must not change.',
       level_note='Exhaustive over the stated lattice only. Values are single alphabet entries, not all strings; in families A and B all slots '
                  'but one follow the rotating default rule (stated in harness/c32_xml.cpp); the full product is taken only for <= 3 nodes '
                  'over the reduced alphabet. Text is never given leading/trailing blanks or line breaks (the parser keeps blanks and drops '
                  'line breaks; the property does not say). Byte strings: 10-symbol alphabet up to the stated length plus one-byte '
-                 'neighbourhoods of 3-4 seeds, not all strings up to 4 KB. Reads of uninitialised memory are invisible to ASan/UBSan. '
+                 'neighbourhoods of 3-4 seeds, not all strings up to 4 KB. Reads of uninitialised memory are invisible to ASan/UBSan; the stack-fill '
+                 'differential only sees those that change the result. '
                  'Trusted: the harness writer, the reference tree, the reference path evaluator (components must equal the tags from the '
                  'base element down; result in document order).',
       rule='trees: case = (family, coordinates) -> one document; non-trivial = the tree has >= 2 elements or the document contains at least '
@@ -44,4 +48,4 @@ check('C32',
                   thorough=dict(args=['part=trees', 'maxn=7', 'big=1', 'ralpha=5', 'ralpha3=4'], deadline=840)),
              dict(name='bytes', harness='c32_xml', variant='san', crash_clause='memory-safe-and-total',
                   quick=dict(args=['part=bytes', 'maxlen=6', 'seeds=3', 'subst=0'], deadline=100),
-                  thorough=dict(args=['part=bytes', 'maxlen=8', 'seeds=4', 'subst=1'], deadline=840))])
+                  thorough=dict(args=['part=bytes', 'maxlen=7', 'ltlen=8', 'seeds=4', 'subst=1'], deadline=840))])
